@@ -1,9 +1,94 @@
 import NxProofs.NexKerberos
-/-! # C16 — Kerberos tickets round-trip, authenticate, and keys derive per specification -/
+/-!
+# C16 — Kerberos tickets round-trip, authenticate, and keys derive per specification
+
+Model: `NxModel/Nex/Kerberos.lean` over the Lean MD5 / HMAC-MD5 / RC4 references (`NxModel/Crypto/Md5.lean`,
+validated against RFC vectors and the repository's known-answer vectors in the driver self-test).
+Statements only; proofs in `NxProofs/NexKerberos.lean`.
+
+What is a theorem: round trips for every key / size / width / version; *accepted ⇒ tag = HMAC(key, body)*
+(check-before-decrypt), rejection of everything whose tag is not that HMAC and of everything shorter than
+a tag; layouts; derivations equal the reference iteration.
+What is NOT a theorem (cryptographic assumption, stated in the manifest, never a hypothesis here): that an
+altered ciphertext or another key cannot satisfy `tag = HMAC(key, body)`. The harness samples every
+single-bit flip / truncation. `wrong_key_accepted_counterexample` shows the one systematic exception
+(HMAC's zero padding of short keys).
+-/
 namespace Nx.C16
 open Nx Nx.Nex Nx.Nex.Kerberos Nx.Crypto
 
 /-- RC4 with the same key twice is the identity (for every key and every data) -/
 theorem rc4_involution (key x : Bytes) : rc4 key (rc4 key x) = x := Kerberos.rc4_involution key x
+
+/-- `decrypt k (encrypt k x) = x` for every key the cipher accepts (1..256 bytes) and every data -/
+theorem kerb_roundtrip (key data b : Bytes) (h : Kerberos.encrypt key data = .ok b) : Kerberos.decrypt key b = .ok data :=
+  decrypt_encrypt key data b h
+
+theorem kerb_encrypt_defined_iff (key data : Bytes) :
+    (∃ b, Kerberos.encrypt key data = .ok b) ↔ (1 ≤ key.length ∧ key.length ≤ 256) := encrypt_ok_iff key data
+
+/-- whatever is accepted carries the HMAC-MD5 of its body under the key, is at least a tag long, and decrypts to the RC4 image of the body -/
+theorem kerb_accept_implies_mac (key b x : Bytes) (h : Kerberos.decrypt key b = .ok x) :
+    tag b = hmacMd5 key (body b) ∧ 16 ≤ b.length ∧ x = rc4 key (body b) := decrypt_ok_implies_mac key b x h
+
+/-- a buffer whose last 16 bytes are not the HMAC of the rest is rejected with ValueError, before the cipher is touched -/
+theorem kerb_reject_bad_mac (key b : Bytes) (h : tag b ≠ hmacMd5 key (body b)) : Kerberos.decrypt key b = .error .value :=
+  decrypt_rejects key b h
+
+/-- every truncation below the tag size is rejected -/
+theorem kerb_reject_short (key b : Bytes) (h : b.length < 16) : Kerberos.decrypt key b = .error .value := decrypt_short key b h
+
+/-- the ciphertext is `RC4(key, data) ‖ HMAC-MD5(key, RC4(key, data))` -/
+theorem kerb_envelope_layout (key data : Bytes) (hk : 1 ≤ key.length ∧ key.length ≤ 256) :
+    Kerberos.encrypt key data = .ok (rc4 key data ++ hmacMd5 key (rc4 key data)) := by
+  unfold Kerberos.encrypt rc4KeyOk
+  simp [hk.1, hk.2]
+
+/-- "decryption under any other key is rejected" does NOT hold literally: keys that differ by a trailing zero
+byte (up to 64 bytes) have the same HMAC, so the check passes (the plaintext is then garbage) -/
+theorem wrong_key_accepted_counterexample (key data b : Bytes) (hk : 1 ≤ key.length) (h64 : key.length < 64)
+    (h : Kerberos.encrypt key data = .ok b) : key ++ [0] ≠ key ∧ ∃ x, Kerberos.decrypt (key ++ [0]) b = .ok x :=
+  ⟨by intro e; have := congrArg List.length e; simp at this, wrong_key_accepted key data b hk h64 h⟩
+
+/-- client tickets: every key size, pid width, key, field values (the writer fails only on a wrong session-key size / out-of-range pid / oversized buffer) -/
+theorem client_ticket_roundtrip (c : Cfg) (key : Bytes) (t : ClientTicket) (b : Bytes)
+    (h : ClientTicket.encrypt c key t = .ok b) : ClientTicket.decrypt c key b = .ok t :=
+  clientTicket_roundtrip c key t b h
+
+/-- server tickets: every key size, pid width, ticket version 0/1 and every per-ticket randomness -/
+theorem server_ticket_roundtrip (c : Cfg) (key ticketKey : Bytes) (t : ServerTicket) (b : Bytes)
+    (h : ServerTicket.encrypt c key ticketKey t = .ok b) : ServerTicket.decrypt c key b = .ok t :=
+  serverTicket_roundtrip c key ticketKey t b h
+
+/-- version 1: `buffer(ticketKey) ‖ buffer(envelope under md5(key ‖ ticketKey))` -/
+theorem v1_key_def (c : Cfg) (key ticketKey : Bytes) (t : ServerTicket) (b : Bytes)
+    (hv : c.ticketVersion = 1) (h : ServerTicket.encrypt c key ticketKey t = .ok b) :
+    ∃ d e, serverPlain c t = .ok d ∧ Kerberos.encrypt (md5 (key ++ ticketKey)) d = .ok e ∧
+      b = u32le ticketKey.length ++ ticketKey ++ (u32le e.length ++ e) :=
+  serverTicket_v1_layout c key ticketKey t b hv h
+
+/-- size guards -/
+theorem size_guard_encrypt (c : Cfg) (key : Bytes) (t : ClientTicket) (h : c.keySize ≠ t.sessionKey.length) :
+    ClientTicket.encrypt c key t = .error .value := client_size_guard c key t h
+
+theorem size_guard_decrypt (c : Cfg) (key data : Bytes) (t : ClientTicket)
+    (h : ClientTicket.decrypt c key data = .ok t) : t.sessionKey.length = c.keySize := decrypted_sessionKey_size c key data t h
+
+/-- old scheme: `md5^(base + pid mod pidCount)(password)` -/
+theorem derive_old_def (base pidc : Nat) (pw : Bytes) (pid : Nat) (h : 0 < pidc) :
+    deriveOld base pidc pw pid = .ok (md5Pow (base + pid % pidc) pw) := deriveOld_def base pidc pw pid h
+
+/-- new scheme: `md5^pidCount(md5^base(password) ‖ u64le pid)` -/
+theorem derive_new_def (base pidc : Nat) (pw : Bytes) (pid : Nat) (h : pid < 18446744073709551616) :
+    deriveNew base pidc pw pid = .ok (md5Pow pidc (md5Pow base pw ++ u64le pid)) := deriveNew_def base pidc pw pid h
+
+theorem derive_old_is_a_digest (base pidc : Nat) (pw : Bytes) (pid : Nat) (k : Bytes) (hb : 0 < base)
+    (h : deriveOld base pidc pw pid = .ok k) : k.length = 16 := derive_length_old base pidc pw pid k hb h
+
+/-! non-vacuity -/
+example : ∃ b, Kerberos.encrypt [107, 101, 121] [1, 2, 3] = .ok b := (kerb_encrypt_defined_iff _ _).mpr (by decide)
+example : ∃ b, ClientTicket.encrypt ⟨2, 4, 0⟩ [107] ⟨[1, 2], 7, [9]⟩ = .ok b := ⟨_, rfl⟩
+example : ∃ b, ServerTicket.encrypt ⟨2, 8, 1⟩ [107] [5, 5] ⟨123, 7, [1, 2]⟩ = .ok b := ⟨_, rfl⟩
+example : ClientTicket.encrypt ⟨16, 4, 0⟩ [107] ⟨[1, 2], 7, [9]⟩ = .error .value := by decide
 
 end Nx.C16
